@@ -43,6 +43,9 @@ def replay_case(path, judge, pid):
     r = json.load(open(path)); c0 = r['case']; d = c0['doc']; d.setdefault('features', [])
     docrun.impl_init()
     (c,) = E.run_cases([(d, [tuple(e) for e in c0['edits']])])
+    ck = core.Check(pid, 'replay', 0)
+    st = E.correspondence(ck, c)      # also records the model's verdict on the input (the region of a recorded finding)
+    print('model/implementation correspondence on this input:', st, '| model verdict (0 = inside the model):', c.get('outside', 0), '| nested-insertion edits:', c.get('nn', 0), '| cross-paragraph edits:', c.get('xp', 0))
     raw_in = docrun.extract(c['b'], False); clean_in = docrun.extract(c['b'], True)
     raw_out = docrun.extract(c['r']['out'], False) if not c['r']['err'] else ''
     fails = [(f, k) for f, k in judge(c, raw_in, clean_in, raw_out) if f]
@@ -50,7 +53,8 @@ def replay_case(path, judge, pid):
     bad = [f for f, k in fails if not k]
     for f, k in fails: print(('KNOWN %s: ' % k[0] if k else 'FAIL: ') + f[:400])
     if bad: print('VIOLATION property=%s replay=%s' % (pid, path)); return 1
-    print('property holds on this input'); return 0
+    if st == 'broken': print('VIOLATION property=%s replay=%s no-failing-input-found' % (pid, path)); print('the model and the implementation disagree on this input: ' + str(ck.corr_broken[0][0] if ck.corr_broken else '')[:300]); return 1
+    print('property holds on this input' + (' (outside recorded regions)' if not fails else ' apart from the recorded finding(s) above')); return 0
 
 TRUSTED = [
     'harness/absdoc.py reader (lxml+zipfile): abstraction from bytes to the model document and its tape - trusted; build->read round trip is part of every case',
